@@ -513,7 +513,8 @@ func extractSenFacts(repo, out string) ([]string, error) {
 //   - appendArraySrc / appendObjectSrc / appendSortObjectSrc: the bodies of the three indented append functions,
 //     printed the same way (the computation of `is` / `cs` with the clamps against len(spaces) / len(tabs), the
 //     brackets, the member filter for OmitNil / OmitEmpty, the `": "` after a member name, the order of the appends);
-//   - appendSENScalarCases: the case labels (types) of the type switch of (*Writer).appendSEN up to `[]any`, with
+//   - tightArraySrc / tightObjectSrc / tightSortObjectSrc: the bodies of the three tight append functions (sen/tight.go);
+//   - appendSENCases: the case labels (types) of the type switch of (*Writer).appendSEN up to `[]any`, with
 //     the printed first statement of each (how a scalar is written).
 //
 // Props/C10Facts.lean compares them with the text the model `Sen.indentVal` / `Sen.senWrite` was written against.
@@ -585,6 +586,22 @@ func extractSenWriterFacts(repo, out string) ([]string, error) {
 			return nil, err
 		}
 		fmt.Fprintf(&b, "/-- body of func %s (sen/writer.go) -/\ndef %s : List String := %s\n\n", r.fn, r.lean, senLeanList(lines))
+	}
+	// the tight functions (sen/tight.go)
+	tfile, err := parser.ParseFile(fset, filepath.Join(repo, "sen", "tight.go"), nil, 0)
+	if err != nil {
+		return nil, err
+	}
+	for _, r := range []struct{ lean, fn string }{{"tightArraySrc", "tightArray"}, {"tightObjectSrc", "tightObject"}, {"tightSortObjectSrc", "tightSortObject"}} {
+		fd := senPlainFunc(tfile, r.fn)
+		if fd == nil || fd.Body == nil {
+			return nil, fmt.Errorf("sen: func %s not found in sen/tight.go", r.fn)
+		}
+		lines, err := senPrintLines(fset, fd.Body)
+		if err != nil {
+			return nil, err
+		}
+		fmt.Fprintf(&b, "/-- body of func %s (sen/tight.go) -/\ndef %s : List String := %s\n\n", r.fn, r.lean, senLeanList(lines))
 	}
 	// the scalar cases of appendSEN
 	fd := senFuncDecl(wf, "Writer", "appendSEN")
